@@ -65,44 +65,45 @@ theorem raw_canon {pkgs : List LPkg} {o1 o2 o3 o4 o1' o2' o3' o4' : Order} {st4 
 theorem groupPermInvariant : GroupPermInvariant := by
   intro pkgs budget o1 o2 o3 o4 o1' o2' o3' o4' hu ho1 ho2 ho3 ho4 ho1' ho2' ho3' ho4'
   unfold groupByOriginAndSize
-  simp only
-  cases hs : phase4 o3 (phase3 o2 (phase2 o1 (phase1 pkgs))) (phase2 o1 (phase1 pkgs)) with
-  | ok st4 =>
-    obtain ⟨st4', hs'⟩ := (phase4_ok_iff hu ho1' ho2' ho3').2
-      ((phase4_ok_iff hu ho1 ho2 ho3).1 ⟨st4, hs⟩)
-    rw [hs']
-    simp only [Res.bind]
-    split
-    · rfl
-    · rw [raw_canon hu ho1 ho2 ho3 ho4 ho1' ho2' ho3' ho4' hs hs']
-  | err =>
-    have := (phase4_err_iff hu ho1' ho2' ho3').2 ((phase4_err_iff hu ho1 ho2 ho3).1 hs)
-    rw [this]
-    rfl
-  | panic => exact absurd hs (phase4_ne_panic hu ho1 ho2)
+  split
+  · rfl
+  · simp only
+    cases hs : phase4 o3 (phase3 o2 (phase2 o1 (phase1 pkgs))) (phase2 o1 (phase1 pkgs)) with
+    | ok st4 =>
+      obtain ⟨st4', hs'⟩ := (phase4_ok_iff hu ho1' ho2' ho3').2
+        ((phase4_ok_iff hu ho1 ho2 ho3).1 ⟨st4, hs⟩)
+      rw [hs']
+      simp only [Res.bind]
+      rw [raw_canon hu ho1 ho2 ho3 ho4 ho1' ho2' ho3' ho4' hs hs']
+    | err =>
+      have := (phase4_err_iff hu ho1' ho2' ho3').2 ((phase4_err_iff hu ho1 ho2 ho3).1 hs)
+      rw [this]
+      rfl
+    | panic => exact absurd hs (phase4_ne_panic hu ho1 ho2)
 
-/-- the outcome is an error exactly when some replaces entry naming a present package cannot be
-evaluated, and never a panic for a non-negative budget -/
+/-- the outcome is an error exactly when the budget is negative or some replaces entry naming a
+present package cannot be evaluated, and it is never a panic -/
 theorem group_outcome {pkgs : List LPkg} {budget : Int} {o1 o2 o3 o4 : Order}
     (hu : UniqueNames pkgs) (ho1 : IsPerm o1) (ho2 : IsPerm o2) (ho3 : IsPerm o3) :
-    (groupByOriginAndSize pkgs budget o1 o2 o3 o4 = .err ↔ replacesError pkgs = true) ∧
-    (0 ≤ budget → groupByOriginAndSize pkgs budget o1 o2 o3 o4 ≠ .panic) := by
+    (groupByOriginAndSize pkgs budget o1 o2 o3 o4 = .err ↔
+      (budget < 0 ∨ replacesError pkgs = true)) ∧
+    groupByOriginAndSize pkgs budget o1 o2 o3 o4 ≠ .panic := by
   unfold groupByOriginAndSize
-  simp only
-  cases hs : phase4 o3 (phase3 o2 (phase2 o1 (phase1 pkgs))) (phase2 o1 (phase1 pkgs)) with
-  | ok st4 =>
-    have hne : replacesError pkgs = false := (phase4_ok_iff hu ho1 ho2 ho3).1 ⟨st4, hs⟩
-    simp only [Res.bind]
-    constructor
-    · constructor
-      · intro h; split at h <;> cases h
-      · intro h; rw [hne] at h; cases h
-    · intro hb; split
-      · omega
-      · intro h; cases h
-  | err =>
-    have := (phase4_err_iff hu ho1 ho2 ho3).1 hs
-    simp [Res.bind, this]
-  | panic => exact absurd hs (phase4_ne_panic hu ho1 ho2)
+  split
+  · next hb => exact ⟨⟨fun _ => Or.inl hb, fun _ => rfl⟩, fun h => (by cases h)⟩
+  · next hb =>
+    simp only
+    cases hs : phase4 o3 (phase3 o2 (phase2 o1 (phase1 pkgs))) (phase2 o1 (phase1 pkgs)) with
+    | ok st4 =>
+      have hne : replacesError pkgs = false := (phase4_ok_iff hu ho1 ho2 ho3).1 ⟨st4, hs⟩
+      simp only [Res.bind]
+      refine ⟨⟨fun h => (by cases h), fun h => ?_⟩, fun h => (by cases h)⟩
+      rcases h with h | h
+      · exact absurd h hb
+      · rw [hne] at h; cases h
+    | err =>
+      have := (phase4_err_iff hu ho1 ho2 ho3).1 hs
+      simp [Res.bind, this]
+    | panic => exact absurd hs (phase4_ne_panic hu ho1 ho2)
 
 end Apko.C10
